@@ -305,9 +305,19 @@ func (b Builder) Defer(kind DoAction, fn Expr, buildCall func(Builder, Expr, ...
 	dbgInstrCall("Defer", fn, args)
 	var prog Program
 	var nextbit Expr
+	hadFrame := b.Func.defer_ != nil
 	var self = b.getDefer(kind)
 	if self == nil {
 		return
+	}
+	if kind == DeferAlways && hadFrame && uintptr(self.nextBit) < unsafe.Sizeof(uintptr(0))*8 {
+		// The defer frame was set up before this statement, so a panic (or
+		// Goexit) can unwind through the frame before the statement is reached.
+		// Replaying it unconditionally would run a call that was never deferred
+		// (and pop a foreign argument record): record its execution in a bit
+		// like a conditional defer. Only the statement that creates the frame
+		// itself is safe to replay unconditionally.
+		kind = DeferInCond
 	}
 	id := b.Prog.Val(b.Func.nextDeferID)
 	b.Func.nextDeferID++
